@@ -307,18 +307,29 @@ class Sym:
             parent = path.store.get(self.key(rp[1]))
             if parent is not None and parent.kind == "tuple" and rp[2] < len(parent.items):
                 return parent.items[rp[2]]
-        gen = 0
-        for pfx, g in path.havoced:
-            if key == pfx or key.startswith(pfx + ".") or key.startswith("*" + pfx) or key.startswith(pfx + "#"):
-                gen = max(gen, g)
+        gen = self._gen(path, key)
         v = self.sym_for(key if gen == 0 else "%s@%d" % (key, gen), ty)
         path.store[key] = v
         return v
 
+    def _gen(self, path, key):
+        gen = 0
+        for pfx, g in path.havoced:
+            if key == pfx or key.startswith(pfx + ".") or key.startswith("*" + pfx) or key.startswith(pfx + "#"):
+                gen = max(gen, g)
+        return gen
+
     def store_val(self, path, rp, v):
         key = self.key(rp)
-        # invalidate sub-places
-        for k in [k for k in path.store if k.startswith(key + ".") or k.startswith("*" + key)]:
+        # invalidate sub-places (fields, variant payloads, pointees, discriminant); values read from them after this
+        # assignment are new symbols (generation suffix), e.g. the result of a call executed again in a loop
+        keep = getattr(self, "_keep", set())
+        self._keep = set()
+        stale = [k for k in path.store if (k.startswith(key + ".") or k.startswith("*" + key) or k.startswith(key + "#") or k == "discr(%s)" % key) and k not in keep]
+        if stale or key in path.store:
+            self.fresh += 1
+            path.havoced.append((key, self.fresh))
+        for k in stale:
             del path.store[k]
         path.store[key] = v
 
@@ -508,7 +519,8 @@ class Sym:
             rp = ("discr", self.resolve(path, p))
             key = self.key(rp)
             if key not in path.store:
-                path.store[key] = self.sym_for(key, "isize")
+                gen = self._gen(path, self.key(rp[1]))
+                path.store[key] = self.sym_for(key if gen == 0 else "%s@%d" % (key, gen), "isize")
             return path.store[key], None
         if m and m.group(1) == "CopyForDeref":
             p = parse_place(m.group(2))
